@@ -76,6 +76,7 @@ PROPS = {
         "level": "exploration",
         "units": [
             R("h23", "c18", "TestC18_Requests", (20000, 8), (4000000, 16, 10000)),
+            R("h23", "c18", "TestC18_Concurrent", (40, 2, 600), (3000, 4, 10000), race=True),
         ],
     },
     "C05": {
